@@ -80,6 +80,12 @@ func c03Scenarios(c *vlib.Ctx) []c03Scenario {
 		}
 	}
 	out = append(out, c03Scenario{State: "RUNNING", Critical: false, Kind: "exec-failure+status", Instant: "idle", FailDelay: true})
+	// the task is lost while the core has no subscription (connection dropped, agent unreachable): the only
+	// report is the TASK_LOST answer of the reconciliation that follows the re-subscription
+	for _, st := range []string{"CONFIGURED", "RUNNING"} {
+		out = append(out, c03Scenario{State: st, Critical: true, Kind: "lost-while-disconnected", Instant: "idle"})
+	}
+	out = append(out, c03Scenario{State: "RUNNING", Critical: false, Kind: "lost-while-disconnected", Instant: "idle"})
 	// burst: the executors of the two non-critical tasks fail, and right behind them (no gap) the executor or
 	// agent of the critical victim: three FAILURE events back to back, only the last one matters
 	for _, st := range []string{"CONFIGURED", "RUNNING"} {
@@ -386,6 +392,9 @@ func c03Run(c *vlib.Ctx, idx int, sc c03Scenario) {
 		case "internal-error":
 			s.Master.DeviceEvent(v.ID, 3, "TASK_INTERNAL_ERROR", nil)
 			s.Master.SetTaskState(v.ID, "ERROR")
+		case "lost-while-disconnected":
+			s.Master.LoseWhileDisconnected(v.ID)
+			c.Count("faults_reported_by_reconciliation_only", 1)
 		case "basic-terminated":
 			s.Master.DeviceEvent(v.ID, 2, "BASIC_TASK_TERMINATED", map[string]interface{}{"exitCode": 1, "stdout": "", "stderr": "boom", "voluntaryTermination": false, "finalMesosState": 3})
 			s.Master.TaskStatus(v.ID, "TASK_FAILED", "exit status 1")
